@@ -150,7 +150,11 @@ impl HdlcDeframer {
                 // We can't move from `bits`, since it's only borrowed,
                 // but we can swap its contents.
                 std::mem::swap(&mut bits, inbits);
-                if bits.len() > self.max_size * 8 {
+                // Up to seven bits of the closing flag are collected here too,
+                // before it's recognized as a flag. Without allowing for them, a
+                // frame of exactly max_size bytes is discarded in the middle of
+                // its closing flag, which then can't open the next frame either.
+                if bits.len() > self.max_size * 8 + 7 {
                     return Ok(State::Unsynced(0xff));
                 }
                 if bit > 0 {
@@ -193,6 +197,8 @@ impl HdlcDeframer {
                     );
                 } else if bits.len() / 8 < self.min_size {
                     trace!("Packet too short: {} < {}", bits.len() / 8, self.min_size);
+                } else if self.strip_checksum && bits.len() / 8 < 2 {
+                    trace!("Packet too short to even hold a checksum: {}", bits.len() / 8);
                 } else {
                     let bytes: Vec<u8> = (0..bits.len())
                         .step_by(8)
